@@ -307,6 +307,11 @@ def _run_linear(case, ctx):
     r1, ra, r2, r12 = F(x1), F(a * x1), F(x2), F(x1 + x2)
     for r in (r1, ra, r2, r12):
         if not r.ok:
+            if core.raised_in_field_routine(r.exc):
+                # an exception from inside a field routine is C15's subject; nothing to relate here
+                ctx.label("field_routine_raised_not_judged_here")
+                ctx.add_inconclusive()
+                return []
             return [Violation({"sub": "call_raised", "cls": spec["cls"], **exc_sig(r.exc)}, repr(r.exc)[:300])]
     f1, fa, f2, f12 = (np.asarray(r.value) for r in (r1, ra, r2, r12))
     ctx.label("linear:" + spec["cls"])
@@ -336,7 +341,15 @@ def _run_linear(case, ctx):
     # documented loss of precision at large distances (DESIGN.md 4.6): c_far * eps * (d/L)^3 per observer
     body_ = geom.body_from_spec(spec)
     dl = np.array([float(body_.dist(np.asarray(o["local"])[None])[0]) / body_.L for o in case["observers"]])
-    far_loss = (100.0 * np.finfo(float).eps * dl**3)[None, None, None, :, None] if False else 100.0 * np.finfo(float).eps * dl**3
+    far_loss = 100.0 * np.finfo(float).eps * dl**3
+    # where the library's own accuracy band is wide (C01 envelope; inf = C01 asserts nothing there) linearity can only be
+    # asked to that band
+    from vf.props import c01  # pylint: disable=import-outside-toplevel
+
+    band = c01.accuracy_band(spec["cls"], body_, np.array([o["local"] for o in case["observers"]], dtype=float))
+    if np.any(band > 1e-5):
+        ctx.label("observer_in_wide_accuracy_band")
+    far_loss = far_loss + np.where(band > 1e-5, 3.0 * band, 0.0)
     # scale per observer: magnitude of the field vector there (components may cancel to ~0)
     sc = abs(a) * np.max(np.abs(f1), axis=-1, keepdims=True) + 1e-300
     sc = np.maximum(sc, float(np.max(sc)) * 1e-9) * np.ones_like(f1)
